@@ -206,3 +206,102 @@ def transition_factory_passthrough(index: RepoIndex, rep, rule: str) -> None:
     rep.check(not diff, rule, TRANS, 'factory', f.node.lineno, f'{a["ret"]}'[:200],
               f'the transition factory does not bind the configured values like its siblings '
               f'(differs in {diff})', 'factory binds like its siblings')
+
+
+def late_binding_closures(index: RepoIndex, rep, rule: str, files) -> None:
+    """a function defined in a loop body reads the loop's variables when it is *called*, not
+    when it is defined: if it outlives the iteration (registered, stored, appended, returned)
+    every copy sees the values of the last iteration -- four aliases that all dispatch to the
+    last function of the table.  Flagged: a def / lambda in a for-loop (or a comprehension)
+    whose free names are bound by that loop, and which escapes the iteration other than by
+    being called.  Binding the value at definition time (`def f(x, _n=_n)`,
+    `partial(f, n=_n)`) is the accepted idiom."""
+    n_sites = 0
+
+    def bound_by(target) -> set:
+        return {x.id for x in ast.walk(target) if isinstance(x, ast.Name)}
+
+    def free_names(fn) -> set:
+        params = {a.arg for a in fn.args.posonlyargs + fn.args.args + fn.args.kwonlyargs}
+        for extra in (fn.args.vararg, fn.args.kwarg):
+            if extra is not None:
+                params.add(extra.arg)
+        body = fn.body if isinstance(fn.body, list) else [fn.body]
+        stored, loaded = set(), set()
+        for st in body:
+            for x in ast.walk(st):
+                if isinstance(x, ast.Name):
+                    (stored if isinstance(x.ctx, (ast.Store, ast.Del)) else loaded).add(x.id)
+        return loaded - params - stored
+
+    for rel in files:
+        mod = index.module(rel)
+        for loop in ast.walk(mod.tree):
+            if isinstance(loop, (ast.For, ast.AsyncFor)):
+                per_iter = bound_by(loop.target)
+                for st in loop.body:
+                    for x in ast.walk(st):
+                        if isinstance(x, (ast.Assign, ast.AnnAssign, ast.AugAssign)):
+                            for t in (x.targets if isinstance(x, ast.Assign) else [x.target]):
+                                if isinstance(t, (ast.Name, ast.Tuple, ast.List)):
+                                    per_iter |= bound_by(t)
+                inner = []
+                for st in loop.body:
+                    for x in ast.walk(st):
+                        if isinstance(x, (ast.FunctionDef, ast.Lambda)):
+                            inner.append(x)
+                for fn in inner:
+                    n_sites += 1
+                    late = sorted(free_names(fn) & per_iter)
+                    name = getattr(fn, 'name', '<lambda>')
+                    if isinstance(fn, ast.FunctionDef):
+                        late = [v for v in late if v != fn.name]
+                        uses = [y for st in loop.body for y in ast.walk(st)
+                                if isinstance(y, ast.Name) and y.id == fn.name
+                                and isinstance(y.ctx, ast.Load)]
+                        called = {id(c.func) for st in loop.body for c in ast.walk(st)
+                                  if isinstance(c, ast.Call)}
+                        escapes = [y for y in uses if id(y) not in called]
+                    else:
+                        # a lambda given to a call that keeps it, stored, or returned
+                        escapes = []
+                        for st in loop.body:
+                            for y in ast.walk(st):
+                                if isinstance(y, ast.Call) and isinstance(y.func, ast.Attribute) \
+                                        and y.func.attr in ('append', 'register', 'add', 'insert',
+                                                            'setdefault', 'extend', 'update') \
+                                        and any(a is fn for a in list(y.args) +
+                                                [k.value for k in y.keywords]):
+                                    escapes.append(y)
+                                if isinstance(y, ast.Assign) and y.value is fn and any(
+                                        isinstance(t, (ast.Subscript, ast.Attribute))
+                                        for t in y.targets):
+                                    escapes.append(y)
+                                if isinstance(y, (ast.Return, ast.Yield)) and y.value is fn:
+                                    escapes.append(y)
+                    rep.check(not (late and escapes), rule, rel, name, fn.lineno,
+                              f'{name} reads {late}',
+                              f'`{name}` is defined in a loop, reads the loop variable(s) {late} '
+                              f'when it is called, and outlives the iteration (line '
+                              f'{escapes[0].lineno if escapes else 0}): every function made by '
+                              f'this loop uses the values of the last iteration',
+                              f'{name}: no late-bound loop variable')
+            if isinstance(loop, (ast.ListComp, ast.SetComp, ast.DictComp, ast.GeneratorExp)):
+                per_iter = set()
+                for g in loop.generators:
+                    per_iter |= bound_by(g.target)
+                elts = [loop.key, loop.value] if isinstance(loop, ast.DictComp) else [loop.elt]
+                for el in elts:
+                    cands = [el] + (list(el.elts) if isinstance(el, (ast.Tuple, ast.List))
+                                    else [])
+                    for fn in cands:
+                        if isinstance(fn, ast.Lambda):
+                            n_sites += 1
+                            late = sorted(free_names(fn) & per_iter)
+                            rep.check(not late, rule, rel, '<lambda>', fn.lineno,
+                                      src(fn)[:80],
+                                      f'the lambda `{src(fn)[:60]}` collected by a comprehension '
+                                      f'reads the comprehension variable(s) {late} when it is '
+                                      f'called: every element uses the last value',
+                                      'lambda: no late-bound comprehension variable')
+    rep.holds(rule, 'closures made in loops', f'{n_sites} in {len(list(files))} file(s)')
